@@ -26,6 +26,8 @@ inductive WE
 inductive NE
   | capCount                    -- s->captures->count
   | capsAbove (cs : Nat)        -- s->captures->count - cs.cap
+  | lit (v : Nat)               -- a literal
+  | succ (n : Nat)              -- n + 1   (`n++`)
   deriving Repr, DecidableEq
 
 /-- conditions of `if` -/
@@ -37,6 +39,9 @@ inductive Cond
   | hasBackref                  -- `s->has_backref`
   | numGtWord (n : Nat) (w : WE) -- `n > (int32_t) w` for a numeric local n
   | countGtNum (n : Nat)        -- `s->captures->count > n`
+  | numLtWord (n : Nat) (w : WE) -- `n < w`
+  | ptrEq (x y : Nat)           -- `x == y` (pointers)
+  | wordIsMax (w : WE)          -- `w == UINT32_MAX`
   | not (c : Cond)
   | and (a b : Cond)
   | or (a b : Cond)
@@ -65,7 +70,7 @@ inductive Stmt
   | endSet (x : Nat)            -- s->text_end = x
   | ptrCopy (dst src : Nat)     -- const uint8_t *dst = src
   | call (dst k src : Nat)      -- dst = peg_rule(s, s->bytecode + rule[k], src)
-  | numDef (n : Nat) (e : NE)   -- int32_t n = e
+  | numDef (n : Nat) (e : NE)   -- int32_t n = e   (also `n++`, `n = ..`)
   | valDef (v : Nat) (e : VE)   -- Janet v = e
   | push (v : Nat) (tagk : Nat) -- pushcap(s, v, rule[tagk])
   | scratchPush (a b : Nat)     -- janet_buffer_push_bytes(s->scratch, a, b - a)
@@ -81,6 +86,9 @@ inductive Prog
   | panicLast                   -- janet_panicv(s->captures->data[s->captures->count - 1])
   | panicMatchErr (x : Nat)     -- lc = get_linecol_from_position(s, x - s->text_start); janet_panicf("match error at line %d, column %d", ..)
   | fall                        -- control reaches the end of the case (does not happen in peg_rule)
+  | loop (c : Cond) (body rest : Prog)  -- while (c) body; rest     (the leaves of body are cont / brk / return)
+  | cont                        -- end of the loop body / `continue`
+  | brk                         -- `break`
   deriving Repr, DecidableEq
 
 /-- the locals of a case -/
@@ -108,6 +116,8 @@ def evalWE (O : Operands ρ) : WE → Nat
 def evalNE (L : Loc) (s : St) : NE → Nat
   | .capCount => s.caps.length
   | .capsAbove c => s.caps.length - (L.cs c).cap
+  | .lit v => v
+  | .succ n => L.num n + 1
 
 def evalCond (E : Env) (O : Operands ρ) (L : Loc) (s : St) : Cond → Bool
   | .isNull x => (L.ptr x).isNone
@@ -117,6 +127,9 @@ def evalCond (E : Env) (O : Operands ρ) (L : Loc) (s : St) : Cond → Bool
   | .hasBackref => E.hasBackref
   | .numGtWord n w => decide (L.num n > evalWE O w)
   | .countGtNum n => decide (s.caps.length > L.num n)
+  | .numLtWord n w => decide (L.num n < evalWE O w)
+  | .ptrEq x y => L.ptr x == L.ptr y
+  | .wordIsMax w => evalWE O w == uintMax
   | .not c => !evalCond E O L s c
   | .and a b => evalCond E O L s a && evalCond E O L s b
   | .or a b => evalCond E O L s a || evalCond E O L s b
@@ -193,12 +206,68 @@ def exec (E : Env) (k : OK ρ) (O : Operands ρ) : Prog → Loc → St → ORes
     | some p => .error (.matchErr (lineCol E.text p).1 (lineCol E.text p).2)
     | none => .error .badop
   | .fall, _, _ => .error .badop
+  | .loop _ _ _, _, _ => .error .badop      -- programs with loops are run by `execL`
+  | .cont, _, _ => .error .badop
+  | .brk, _, _ => .error .badop
 
 /-- locals on entry of a case: `text` = local 0 -/
 def Loc.init (pos : Nat) : Loc :=
   { ptr := fun x => if x = 0 then some pos else none, cs := fun _ => ⟨0, 0, 0⟩, val := fun _ => .nil, num := fun _ => 0, oldmode := false }
 
 def run (E : Env) (k : OK ρ) (O : Operands ρ) (p : Prog) (s : St) (pos : Nat) : ORes := exec E k O p (Loc.init pos) s
+
+/-! ### programs with loops -/
+
+/-- how a piece of a case body ends -/
+inductive Out
+  | ret (r : Option Nat × St)   -- the case returned (or jumped to `tail`)
+  | cont (L : Loc) (s : St)     -- fell through to what follows / next iteration
+  | brk (L : Loc) (s : St)      -- `break`
+
+/-- `while (cond) body` with Lean fuel `n` (exhausted = `Err.fuel`, as in the model's `betweenLoop` / `splitLoop`) -/
+def loopN (cond : Loc → St → Bool) (body : Loc → St → Except Err Out) : Nat → Loc → St → Except Err Out
+  | 0, _, _ => .error .fuel
+  | n + 1, L, s =>
+    if cond L s then do
+      match ← body L s with
+      | .cont L' s' => loopN cond body n L' s'
+      | .brk L' s' => .ok (.cont L' s')
+      | .ret r => .ok (.ret r)
+    else .ok (.cont L s)
+
+def execL (E : Env) (k : OK ρ) (O : Operands ρ) (fuel : Nat) : Prog → Loc → St → Except Err Out
+  | .seq st rest, L, s => do
+    let (L', s') ← execStmt E k O L s st
+    execL E k O fuel rest L' s'
+  | .ite c t e, L, s => if evalCond E O L s c then execL E k O fuel t L s else execL E k O fuel e L s
+  | .retNull, _, s => .ok (.ret (none, s))
+  | .ret x, L, s => .ok (.ret (L.ptr x, s))
+  | .tail kk, L, s =>
+    match O.rule kk, L.ptr 0 with
+    | some r, some p => do let r ← k r s p; .ok (.ret r)
+    | _, _ => .error .badop
+  | .panicLast, _, s =>
+    match s.caps.getLast? with
+    | some v => .error (.user v)
+    | none => .error .badop
+  | .panicMatchErr x, L, _ =>
+    match L.ptr x with
+    | some p => .error (.matchErr (lineCol E.text p).1 (lineCol E.text p).2)
+    | none => .error .badop
+  | .fall, _, _ => .error .badop
+  | .loop c body rest, L, s => do
+    match ← loopN (fun L s => evalCond E O L s c) (fun L s => execL E k O fuel body L s) fuel L s with
+    | .cont L' s' => execL E k O fuel rest L' s'
+    | .brk _ _ => .error .badop
+    | .ret r => .ok (.ret r)
+  | .cont, L, s => .ok (.cont L s)
+  | .brk, L, s => .ok (.brk L s)
+
+def runL (E : Env) (k : OK ρ) (O : Operands ρ) (fuel : Nat) (p : Prog) (s : St) (pos : Nat) : ORes :=
+  match execL E k O fuel p (Loc.init pos) s with
+  | .error e => .error e
+  | .ok (.ret r) => .ok r
+  | .ok _ => .error .badop
 
 /-- operand layout of the instructions covered (which `rule[k]` is which field of the decoded instruction; the decoder
     `Decode.decode`, tied by `decode_sizes_agree` and by correspondence, reads the same positions) -/
